@@ -54,8 +54,16 @@ def extract(objs, src):
             name = node.get("name")
             if not name:
                 return
+            base = name
+            if k == "ClassTemplateSpecializationDecl":
+                # an instantiation is its own class: NiAnimationKeyGroup<float>
+                targs = [a.get("type", {}).get("qualType", "?").replace("nifly::", "") for a in node.get("inner", []) or []
+                         if a.get("kind") == "TemplateArgument"]
+                name = name + "<" + ", ".join(targs) + ">"
             # qualified with enclosing records (nested structs)
             q = [p.get("name") for p in parents if p.get("kind") in ("CXXRecordDecl", "ClassTemplateSpecializationDecl", "ClassTemplateDecl") and p.get("name")]
+            if q and q[-1] == base:
+                q = q[:-1]
             qn = "::".join(dict.fromkeys(q + [name]))
             rec = dict(id=node["id"], name=qn, bases=[b["type"]["qualType"] for b in node.get("bases", [])], fields=[],
                        template=any(p.get("kind") == "ClassTemplateDecl" for p in parents), methods={})
@@ -82,7 +90,7 @@ def load(repo=None):
     key = C.repo_hash(repo)
     os.makedirs(C.CACHE, exist_ok=True)
     tag = hashlib.sha256(os.path.realpath(repo).encode()).hexdigest()[:6]
-    cache = os.path.join(C.CACHE, f"ast-{tag}-{key}.pkl")
+    cache = os.path.join(C.CACHE, f"ast-{tag}-{key}-v3.pkl")
     if os.path.exists(cache):
         return pickle.load(open(cache, "rb"))
     srcs = sorted(os.path.join(repo, "src", f) for f in os.listdir(os.path.join(repo, "src")) if f.endswith(".cpp"))
